@@ -29,11 +29,13 @@
 (* transcribes a server that joins unchecked and journals before it looks  *)
 (* the index up - TLC then exhibits the escape, which is how the           *)
 (* discriminating cases of the corpus are marked (esc).                    *)
+(*                                                                         *)
+(* Part S (stored values, then reads): two-step cases, see below.          *)
 (***************************************************************************)
 EXTENDS Integers, Sequences, FiniteSets, TLC, Json
 
 CONSTANTS
-    Shapes,     \* set of [id, grp, body, writes, lim, kinds, refix, refid, params]
+    Shapes,     \* set of [id, grp, body, writes, lim, kinds, refix, refid, params, vars]
     Names,      \* set of names = non-empty sequences over segment tokens
     Forms,      \* encodings of a name: subset of {"plain","pct","dblpct","long"}
     Guard,      \* "ref" | "none"
@@ -69,22 +71,34 @@ PlainMuts == {"valid", "notJSON", "fieldMissing", "null", "empty", "negative", "
               "unknownField", "deepNesting", "unknownId", "unknownIndex", "nameForm", "ignoredBody",
               "trailingBytes"}
 
+\* A route has several request shapes: the canonical valid body and variants of it that steer the
+\* handler into other paths (an optional member / alternative value added, a primary input such as
+\* the query vector left out, both).  s.vars names the variant classes the routes of shape s have
+\* (derived by the binding from the request structs).  The numeric classes and the limits are
+\* combined with EVERY variant: a check placed behind an early return of one path is a missing check.
+VarMuts == {"valid", "negative", "huge", "overLimit"}
+VarsOf(s, m) == IF m \in VarMuts /\ s.body THEN {"canon"} \cup s.vars ELSE {"canon"}
+
 \* every mutation of the quantifier, as far as it can be applied to a route of shape s
 Requests(s) ==
-       {[shape |-> s.id, mut |-> m, kind |-> "", repl |-> "", lim |-> ""] : m \in
-            {m \in PlainMuts :
+       {[shape |-> s.id, mut |-> x[1], kind |-> "", repl |-> "", lim |-> "", var |-> x[2]] : x \in
+            {x \in PlainMuts \X {"canon", "plusOpt", "minusAlt", "minusAltPlusOpt"} :
+              LET m == x[1] IN
+                /\ x[2] \in VarsOf(s, m)
                 /\ m \in {"notJSON", "unknownField", "deepNesting", "trailingBytes"} => s.body
                 /\ m \in {"fieldMissing", "null", "empty", "negative", "huge"} => (s.body \/ m \in {"negative", "huge"})
                 /\ m = "unknownId" => s.refid
                 /\ m = "unknownIndex" => s.refix
                 /\ m = "nameForm" => (s.params \/ s.refix \/ s.refid)
                 /\ m = "ignoredBody" => ~s.body}}
-  \cup {[shape |-> s.id, mut |-> "wrongType", kind |-> k, repl |-> t, lim |-> ""] :
+  \cup {[shape |-> s.id, mut |-> "wrongType", kind |-> k, repl |-> t, lim |-> "", var |-> "canon"] :
             k \in (IF s.body THEN s.kinds \cup {"body"} ELSE {}), t \in JSONTypes \ {"object"}}
-  \cup {[shape |-> s.id, mut |-> "wrongType", kind |-> k, repl |-> "object", lim |-> ""] :
+  \cup {[shape |-> s.id, mut |-> "wrongType", kind |-> k, repl |-> "object", lim |-> "", var |-> "canon"] :
             k \in (IF s.body THEN s.kinds \ {"object"} ELSE {})}
-  \cup {[shape |-> s.id, mut |-> "overLimit", kind |-> "", repl |-> "", lim |-> l] :
-            l \in s.lim \cup (IF s.body THEN {"body"} ELSE {})}
+  \cup {[shape |-> s.id, mut |-> "overLimit", kind |-> "", repl |-> "", lim |-> l, var |-> v] :
+            l \in s.lim, v \in VarsOf(s, "overLimit")}
+  \cup {[shape |-> s.id, mut |-> "overLimit", kind |-> "", repl |-> "", lim |-> "body", var |-> "canon"] :
+            l \in (IF s.body THEN {"body"} ELSE {})}
 
 ShapeOf(r) == CHOOSE s \in Shapes : s.id = r.shape
 
@@ -100,7 +114,7 @@ Required(r) ==
                  ELSE "any",
     unchanged_if_4xx |-> TRUE,         \* a 4xx leaves the database as it was
     no_work  |-> r.mut = "overLimit",  \* refused before any work is done
-    sanity   |-> r.mut = "valid" ]     \* binding precondition: the valid request is understood
+    sanity   |-> r.mut = "valid" /\ r.var = "canon" ]  \* binding precondition: the canonical valid request is understood
 
 Conforms(r, a) ==
   LET q == Required(r) IN
@@ -188,7 +202,7 @@ Inv_OverLimit    == Done /\ rq[1].mut = "overLimit"
 \* one JSON line per request class: the case and its required outcome
 Emit_Req == (stage = "limit") =>
               PrintT(<<"CORPUS", ToJson([part |-> "req", shape |-> rq[1].shape, mut |-> rq[1].mut,
-                        kind |-> rq[1].kind, repl |-> rq[1].repl, lim |-> rq[1].lim,
+                        kind |-> rq[1].kind, repl |-> rq[1].repl, lim |-> rq[1].lim, var |-> rq[1].var,
                         wrong |-> IsWrongType(rq[1]), req |-> Required(rq[1])])>>)
 
 (***************************************************************************)
@@ -311,10 +325,54 @@ Emit_FS == (nm # <<>>) =>
                                 outside |-> {p \in touched : ~InSubtree(p, DataDir)}]])>>)
 
 (***************************************************************************)
+(*                    Part S : stored values, then reads                   *)
+(*                                                                         *)
+(* Metadata and properties are free-form JSON.  A write route accepts a    *)
+(* value of ANY JSON type under a key a handler treats specially (name,    *)
+(* title, content, type ... - the binding collects the keys from the       *)
+(* handlers of the current tree); afterwards EVERY route that reads, lists,*)
+(* sorts or rewrites that data is called.  The required outcome of the     *)
+(* second request is the one of part R: well-formed, never through the     *)
+(* recovery path - whatever was stored before.                             *)
+(***************************************************************************)
+VARIABLES sq,     \* <<>> or <<[store, kc, jt, read]>>
+          sst,    \* "idle", "stored", "read"
+          odd,    \* the odd value was accepted into the database
+          sresp   \* <<>> or <<[status, wf, recov]>> of the second request
+svars == <<sq, sst, odd, sresp>>
+
+OddTypes   == {"number", "bool", "null", "array", "object", "string_empty"}
+\* special: keys the handlers inspect; discriminator: the key that selects what a node is (type)
+KeyClasses == {"special", "discriminator"}
+StoreShapes == {s \in Shapes : s.body /\ s.writes /\ ({"object", "objects"} \cap s.kinds # {})}
+
+SInit == sq = <<>> /\ sst = "idle" /\ odd = FALSE /\ sresp = <<>>
+SStore == /\ sst = "idle"
+          /\ \E ws \in StoreShapes, kc \in KeyClasses, jt \in OddTypes, rs \in Shapes :
+                sq' = <<[store |-> ws.id, kc |-> kc, jt |-> jt, read |-> rs.id]>>
+          /\ odd' \in BOOLEAN          \* the write is accepted or refused, both are allowed
+          /\ sst' = "stored" /\ UNCHANGED sresp
+SRead  == /\ sst = "stored"
+          /\ \E st \in {"2xx", "4xx", "5xx"} : sresp' = <<[status |-> st, wf |-> TRUE, recov |-> FALSE]>>
+          /\ sst' = "read" /\ UNCHANGED <<sq, odd>>
+SRecycle == sst = "read" /\ sq' = <<>> /\ sst' = "idle" /\ odd' = FALSE /\ sresp' = <<>>
+SNext == SStore \/ SRead \/ SRecycle
+
+RequiredSeq == [wf |-> TRUE, recov |-> FALSE, status |-> "any"]
+Inv_SeqTotal == sst = "read" => (sresp[1].wf = RequiredSeq.wf /\ sresp[1].recov = RequiredSeq.recov)
+SView == <<sq, sst>>
+Emit_Seq == (sst = "stored") =>
+              PrintT(<<"CORPUS", ToJson([part |-> "seq", store |-> sq[1].store, kc |-> sq[1].kc, jt |-> sq[1].jt,
+                        read |-> sq[1].read, req |-> RequiredSeq])>>)
+
+(***************************************************************************)
 (*                           specifications                                *)
 (***************************************************************************)
-SpecReq       == RInit /\ FInit /\ [][RNext /\ UNCHANGED fvars]_<<rvars, fvars>>
-SpecReqCorpus == RInit /\ FInit /\ [][Emit_Req /\ RNext /\ UNCHANGED fvars]_<<rvars, fvars>>
-SpecFS        == RInit /\ FInit /\ [][FNext /\ UNCHANGED rvars]_<<rvars, fvars>>
-SpecFSCorpus  == RInit /\ FInit /\ [][Emit_FS /\ FNext /\ UNCHANGED rvars]_<<rvars, fvars>>
+allvars == <<rvars, fvars, svars>>
+AInit == RInit /\ FInit /\ SInit
+SpecReq       == AInit /\ [][RNext /\ UNCHANGED <<fvars, svars>>]_allvars
+SpecReqCorpus == AInit /\ [][Emit_Req /\ RNext /\ UNCHANGED <<fvars, svars>>]_allvars
+SpecFS        == AInit /\ [][FNext /\ UNCHANGED <<rvars, svars>>]_allvars
+SpecFSCorpus  == AInit /\ [][Emit_FS /\ FNext /\ UNCHANGED <<rvars, svars>>]_allvars
+SpecSeqCorpus == AInit /\ [][Emit_Seq /\ SNext /\ UNCHANGED <<rvars, fvars>>]_allvars
 =============================================================================
